@@ -904,6 +904,16 @@ fn c09_file(version: &str, spelling: usize, placement: usize, body_kind: usize, 
     c.bases.clear();
     let mut parts: Vec<Part> = vec![];
     if body_kind == 0 {
+        if rng.chance(1, 3) {
+            // another using directive (a function list, or another library) before the SafeMath one
+            let id = b.ids.next();
+            let t = b.ty("uint256");
+            if rng.chance(1, 2) {
+                parts.push(Part::Using(id, vec!["double".into(), "Lib.triple".into()], true, Some(t), false));
+            } else {
+                parts.push(Part::Using(id, vec!["Address".into()], false, Some(t), false));
+            }
+        }
         let id = b.ids.next();
         let t = b.ty("uint256");
         parts.push(Part::Using(id, vec!["SafeMath".into()], false, Some(t), false));
@@ -936,6 +946,15 @@ fn c09_file(version: &str, spelling: usize, placement: usize, body_kind: usize, 
         let r = b.var("require");
         let c0 = b.small_expr(0);
         let call = b.call(r, vec![c0]);
+        stmts.push(b.st(S::Expr(call)));
+    }
+    if rng.chance(1, 2) {
+        // a message written as adjacent literals: first part long (>= 32 bytes) or the whole message short
+        let r = b.var("require");
+        let c0 = b.small_expr(0);
+        let parts_: Vec<String> = if rng.chance(1, 2) { vec!["\"the first part alone is longer than 32 bytes, \"".into(), "\"and there is more\"".into()] } else { vec!["\"ab\"".into(), "\"cd\"".into()] };
+        let lit = b.ex(E::Str(parts_));
+        let call = b.call(r, vec![c0, lit]);
         stmts.push(b.st(S::Expr(call)));
     }
     rng.shuffle(&mut stmts);
@@ -1004,6 +1023,30 @@ pub fn run_c09(ctx: &Ctx) -> i32 {
         }
     });
     meta.exhaustive_subspaces.push("all 984 version triples 0.0.0..0.20.40 and 1.0.0..1.2.40, each with at least two bodies".into());
+    // around the two thresholds every operator spelling and every placement is crossed with every version
+    let mut boundary: Vec<(u64, u64, u64)> = vec![];
+    for (m, ps) in [(7u64, vec![0u64, 6, 255]), (8, vec![0, 1, 2, 3, 4, 5, 10]), (9, vec![0, 3, 4])] {
+        for p in ps {
+            boundary.push((0, m, p));
+        }
+    }
+    boundary.push((1, 0, 0));
+    let nb = boundary.len() as u64;
+    run_workload(ctx, &mut acc, "threshold-cross", nb * 8 * 7, |k, rng, acc| {
+        let v = boundary[(k % nb) as usize];
+        let spelling = ((k / nb) % 8) as usize;
+        let placement = ((k / nb / 8) % 7) as usize;
+        let vs = format!("{}.{}.{}", v.0, v.1, v.2);
+        let f = c09_file(&vs, spelling, placement, (k % 3) as usize, rng);
+        if let Some(p) = prepare(f, acc) {
+            acc.cov("programs:accepted");
+            acc.cov("threshold-cross:files");
+            count_forms(&p, &C09_DETS, acc);
+            let extra = json!({"version": vs, "spelling": spelling, "placement": placement});
+            judge(&p, &format!("tc-v{}-s{}-p{}", vs, spelling, placement), &C09_DETS, Layout::OneTokenPerLine, rng, acc, &extra);
+        }
+    });
+    meta.exhaustive_subspaces.push("14 versions around the thresholds x 8 operator spellings x 7 pragma placements".into());
     let nr = ctx.tier.pick(5000u64, 600000u64);
     run_workload(ctx, &mut acc, "random-versions", nr, |k, rng, acc| {
         let comp = |rng: &Rng| -> u64 {
